@@ -168,7 +168,9 @@ int main(int argc, char **argv) {
         if (ortho) for (int cd = 1; cd <= 3; cd++) for (int ncp = 1; ncp <= 1; ncp++) for (int tj = 0; tj < 2; tj++) { Cfg e{(bool)ortho, 3, true, 1, 0, 0, ncp, (bool)tj, heap}; e.cpDirs = cd; phase(e, few, 2, tj ? 3 : 2); }
         for (int mv = 1; mv < 3; mv++) { Cfg e{(bool)ortho, 3, true, 1, 0, mv, 0, false, heap}; e.early = true; phase(e, few, 2, 2); Cfg ej{(bool)ortho, 3, true, 1, 0, mv, 0, true, heap}; ej.early = true; phase(ej, few, 2, 3); }
     }
-    if (TH) for (int ortho = 0; ortho < 2; ortho++) for (int heap = 1; heap <= 2; heap++) for (int prop = 0; prop < 2; prop++) for (int dm = 0; dm < 3; dm++) for (int ex = 0; ex < 3; ex++) for (int mv = 0; mv < 3; mv++) for (int tj = 0; tj < 2; tj++) {
+    // the full cross product (quick: follow-ups nothing/translate/resize; thorough: all seven follow-ups)
+    for (int ortho = 0; ortho < 2; ortho++) for (int heap = 1; heap <= 2; heap++) for (int prop = 0; prop < 2; prop++) for (int dm = 0; dm < 3; dm++) for (int ex = 0; ex < 3; ex++) for (int mv = 0; mv < (TH ? 7 : 3); mv++) for (int tj = 0; tj < 2; tj++) {
+        if ((mv == 3 || mv == 4) && !tj) continue;   // junction moves need junction ends
         phase({(bool)ortho, 3, (bool)prop, dm, ex, mv, 0, (bool)tj, heap}, all, 2, 2); if (prop && dm == 1 && ex == 0) phase({(bool)ortho, 3, true, 1, 0, mv, 2, (bool)tj, heap}, few, 2, 2); }
     return ctx.finish();
 }
